@@ -42,7 +42,7 @@ PROPS["C13"] = {
     "runner": "c13",
     "design_ref": "DESIGN.md §6 C13",
     "technique": "Lean 4 theorems by induction over arbitrary histories for any admission arithmetic satisfying two laws: per-window bound, interval bound, reject-consumes-nothing, idle readmission, per-key independence (simulation incl. cleanup), tracked-keys recency; differential correspondence of the exact-arithmetic model against the real RateLimiter under paused tokio time",
-    "level_text": "Machine-checked proofs for every history, any number of keys, any limit >= 1 and duration > 0: (A) at most `limit` admitted per window start, (B) at most 2*limit admitted in any closed interval of one duration (non-decreasing times), (C) a rejected attempt leaves exactly the time-driven roll, (D) a bucket idle for two durations (or an unseen key) is admitted, (E) decisions for a key in any multi-key history equal a single-key limiter without cleanup on its own attempts, (F) right after every admitted attempt each tracked key attempted within the last four durations. The executable exact-arithmetic model is compared decision-by-decision and tracked-key-set-by-set (hook tracked_keys) with the real limiter on generated histories on and off the dyadic grid; an independent naive per-key oracle judges (A)(B)(D)(E)(F) on the real decisions.",
+    "level_text": "Machine-checked proofs for every history, any number of keys, any limit >= 1 and duration > 0: (A) at most `limit` admitted per window start, (B) at most 2*limit admitted in any closed interval of one duration (non-decreasing times), (C) a rejected attempt leaves exactly the time-driven roll, (D) a bucket idle for two durations (or an unseen key) is admitted, (E) decisions for a key in any multi-key history equal a single-key limiter without cleanup on its own attempts, (F) right after every admitted attempt each tracked key attempted within the last four durations. The executable exact-arithmetic model is compared decision-by-decision and tracked-key-set-by-set (hook tracked_keys) with the real limiter on generated histories on and off the dyadic grid; an independent naive per-key oracle judges (A)(B)(D)(E)(F) on the real decisions. (G) Simultaneous arrivals: for every arithmetic, configuration and every order in which any number of attempts of any keys reach the limiter at one instant, each key is admitted exactly min(limit, its number of attempts) times, its first attempts (burst_order_independent); the runtime schedule that realises such an order against the real Listener is exercised by the C15 burst cases.",
     "level_note": "Trusted: Lean kernel; f32 admission arithmetic is abstracted by two laws (proved for the exact instance; IEEE f32 satisfies them for limit <= 2^24 by monotone rounding — argued, not proved; violated above: known finding); tokio paused clock; (C-strong: readmission 2 durations after the last ADMITTED attempt under exact arithmetic) is not proved yet.",
     "lean_modules": ["Passage.Props.C13"],
     "cases": {"quick": 1200, "thorough": 300000},
@@ -260,7 +260,7 @@ PROPS["C15"] = {
     "runner": "c15",
     "design_ref": "DESIGN.md §6 C15",
     "technique": "Lean 4 theorems over the admission model for every limiter configuration, arithmetic and arrival history: served ⇔ effective address exists and the limiter admits it; the limiter state moves only by its own enqueue on the effective address; connections without a valid header are closed unserved and are invisible to every other connection's verdict (history-deletion theorem by induction); the limiter's view is the (effective address, time) subsequence; call order and arguments instantiated at re-extracted facts; differential runs of the real Listener on loopback with PROXY v1/v2 headers from several peers",
-    "level_text": "Machine-checked proofs for every limiter configuration and arithmetic (reusing the C13 limiter model), every arrival history and both PROXY settings: a connection is served under address a exactly when its effective address is a (announced source with a valid header, the TCP peer for LOCAL/UNKNOWN headers or with PROXY off) and the limiter admits a; the limiter's successor state is its own enqueue result on a; an invalid header yields closed-unserved and leaves the limiter untouched; over whole histories the served/refused verdicts equal those of the history with all invalid-header connections deleted, and equal the limiter run on the sequence of effective addresses. For the header parser model: a first byte other than 'P' / CR is refused at once; a disabled version is refused; the v2 header a load balancer writes for TCP/IPv4 or TCP/IPv6 announces exactly its SOURCE octets and port for every address, port and trailing bytes; LOCAL announces nothing; the v1 line `PROXY TCP4 src dst sport dport CRLF` announces the parsed src and sport for every text std::net accepts. The facts that the limiter is consulted with client_addr.ip() before Connection::new and that the connection receives that same address are re-extracted. Real runs: sequences of 4–14 connections from 127.0.0.1–3 with headers from a 14-entry menu (v1 TCP4/TCP6/UNKNOWN, v2 PROXY TCP4/TCP6/LOCAL, same source through different peers, IPv4-mapped IPv6, absent, malformed, unknown family, bad version, disabled version); each verdict (status reply / closed with zero bytes) and the address seen by the status adapter are compared with the model and with a second RateLimiter instance; optional login checks the address seen by authentication/filter/strategy adapters and inside the issued cookie.",
+    "level_text": "Machine-checked proofs for every limiter configuration and arithmetic (reusing the C13 limiter model), every arrival history and both PROXY settings: a connection is served under address a exactly when its effective address is a (announced source with a valid header, the TCP peer for LOCAL/UNKNOWN headers or with PROXY off) and the limiter admits a; the limiter's successor state is its own enqueue result on a; an invalid header yields closed-unserved and leaves the limiter untouched; over whole histories the served/refused verdicts equal those of the history with all invalid-header connections deleted, and equal the limiter run on the sequence of effective addresses. For the header parser model: a first byte other than 'P' / CR is refused at once; a disabled version is refused; the v2 header a load balancer writes for TCP/IPv4 or TCP/IPv6 announces exactly its SOURCE octets and port for every address, port and trailing bytes; LOCAL announces nothing; the v1 line `PROXY TCP4 src dst sport dport CRLF` announces the parsed src and sport for every text std::net accepts. The facts that the limiter is consulted with client_addr.ip() before Connection::new and that the connection receives that same address are re-extracted. Real runs: sequences of 4–14 connections from 127.0.0.1–3 with headers from a 14-entry menu (v1 TCP4/TCP6/UNKNOWN, v2 PROXY TCP4/TCP6/LOCAL, same source through different peers, IPv4-mapped IPv6, absent, malformed, unknown family, bad version, disabled version); each verdict (status reply / closed with zero bytes) and the address seen by the status adapter are compared with the model and with a second RateLimiter instance; optional login checks the address seen by authentication/filter/strategy adapters and inside the issued cookie. Burst cases: 96 connections of one address released together (barrier) against the Listener on eight runtime workers, PROXY on and off; the multiset of outcomes must be the one of the sequential model (exactly the budget served, everything else turned away) — the order-independence this relies on is theorem C13.burst_order_independent.",
     "level_note": "Trusted: Lean kernel; the PROXY parser (crate proxy-header 0.1.2) is modelled (greeting, version gate, v2 command/family/length, v1 field splitting and decimal ports, 107-byte cap) and the model classifies the raw first segment of every connection itself; only std::net's text-to-address conversion for v1 is recorded from the real code and handed to the model; limiter window 3600 s (20 s through passage::start) so all arrivals share one window (the limiter's time behaviour is C13's subject).",
     "lean_modules": ["Passage.Props.C15", "Passage.Props.C15Proxy"],
     "cases": {"quick": 40, "thorough": 1500},
